@@ -172,10 +172,14 @@ class ProxyClient(object):
                             call.leaders = self._leaders(call)
                             call.reloaded = self.loads != call.loads_at_start
                         ver, parts = _produce_request_parts(bytes(request))
-                        entry = {"node": broker.node_id, "parts": [(D.topic_index(t), p) for t, p in parts], "out": None}
+                        # ("corr"/"t"/"t_done": which broker-side log entry this is, when it was issued and when it ended -
+                        # coverage measurements and the duplicate monitor of the full-stack stage)
+                        entry = {"node": broker.node_id, "parts": [(D.topic_index(t), p) for t, p in parts], "out": None,
+                                 "corr": requestId, "t": real.reactor.seconds(), "t_done": None}
                         call.reqs.append(entry)
 
                         def done(res, entry=entry, ver=ver, call=call):
+                            entry["t_done"] = real.reactor.seconds()
                             try:
                                 if isinstance(res, Failure):
                                     entry["out"] = ("fail", kind_of(res.value))
